@@ -19,6 +19,10 @@ type Thread struct {
 	what   string
 	// vector clock for the happens-before race check
 	vc map[int]int
+	// interpreter stacks of this thread while it is not running (the Machine holds the running one's)
+	savedCallStack []*ssa.Function
+	savedPanicFrs  []*frame
+	savedDepth     int
 }
 
 type Sched struct {
@@ -149,6 +153,9 @@ func (m *Machine) dispatch(t *Thread) {
 		return
 	}
 	sc.Switches++
+	// the interpreter's call stack, panicking frames and depth belong to the running thread
+	t.savedCallStack, t.savedPanicFrs, t.savedDepth = m.callStack, m.panicFrs, m.depth
+	m.callStack, m.panicFrs, m.depth = next.savedCallStack, next.savedPanicFrs, next.savedDepth
 	sc.cur = next
 	next.wake <- struct{}{}
 	if t.done {
